@@ -12,6 +12,7 @@ pub mod c12;
 pub mod c13;
 pub mod c14;
 pub mod c15;
+pub mod c16;
 
 pub fn run(cfg: &Cfg) -> Option<Report> {
     Some(match cfg.prop.as_str() {
@@ -25,6 +26,7 @@ pub fn run(cfg: &Cfg) -> Option<Report> {
         "C13" => c13::run(cfg),
         "C14" => c14::run(cfg),
         "C15" => c15::run(cfg),
+        "C16" => c16::run(cfg),
         _ => return None,
     })
 }
@@ -41,6 +43,7 @@ pub fn replay(cfg: &Cfg, case: &Value) -> Option<Report> {
         "C13" => c13::replay(cfg, case),
         "C14" => c14::replay(cfg, case),
         "C15" => c15::replay(cfg, case),
+        "C16" => c16::replay(cfg, case),
         _ => return None,
     })
 }
